@@ -363,6 +363,10 @@ def poller_oracle(addresses, bad, reach, schedule, h):
 def poller_cases(tier):
     sets = [([1, 2, 40001, 40003], 1), ([1, 3, 10001, 40001], 0), ([40001, 40002, 40300], 100), ([5, 105, 10005, 30001, 40001], 10)]
     scheds = [['up', 'up'], ['up', 'down', 'up', 'up'], ['down', 'up'], ['up', 'down', 'down', 'up', 'down']]
+    # a sparse request whose merged span exceeds the 123-register transfer limit: the second piece starts on a register nobody asked for
+    sparse = [40001 + 2 * i for i in range(100)]
+    yield sparse, set(), 100, ['up', 'up']
+    yield sparse, {40001}, 100, ['up', 'down', 'up']
     for addrs, reach in sets[:(2 if tier == 'quick' else 4)]:
         for bad in [None] + list(addrs):
             for sch in scheds[:(2 if tier == 'quick' else 4)]:
